@@ -81,6 +81,19 @@ def build(ctx, pkg='./cmd/drive', name='drive', race=False, tags='verif'):
     return exe
 
 
+def extract(ctx):
+    """Static facts about /repo's working tree (go/packages + SSA); cached per check run."""
+    exe = os.path.join(OUT, 'bin', 'extract')
+    os.makedirs(os.path.join(OUT, 'bin'), exist_ok=True)
+    rc, out = sh(['go', 'build', '-o', exe, '.'], cwd=os.path.join(VERIF, 'extract'), timeout=1200)
+    if rc != 0:
+        raise Inconclusive('extractor build failed:\n' + out[-3000:])
+    p = subprocess.run([exe], env=GOENV, stdout=subprocess.PIPE, stderr=subprocess.PIPE, timeout=1200)
+    if p.returncode != 0:
+        raise Inconclusive('extractor failed:\n' + p.stderr.decode()[-3000:])
+    return json.loads(p.stdout.decode())
+
+
 def drive(ctx, exe, cmd, sub=None, extra=(), timeout=3000, env=None):
     d = ctx.path(sub or cmd, '.keep')
     d = os.path.dirname(d)
